@@ -171,9 +171,16 @@ class EzspRig:
                                           options=t.EmberApsOption.APS_OPTION_RETRY, groupId=0, sequence=c & 0xFF)
                     r = await self.ezsp.send_unicast(nwk=t.NWK(0x1234), aps_frame=aps, message_tag=c & 0xFF, data=b"x")
                     val = int(r[1])
-                else:
+                elif cmd in ("getNodeId", "readCounters", "readAndClearCounters", "nop"):
                     r = await getattr(self.ezsp, cmd)()
                     val = self._val(cmd, list(r))
+                else:                      # any other command: arguments generated from its schema
+                    import random
+                    from .c07 import gen
+                    rng = random.Random(c)
+                    tx = self.cmds[cmd][1]
+                    r = await getattr(self.ezsp, cmd)(*[gen(ty, rng) for ty in tx.values()])
+                    val = self._val(cmd, list(r) if isinstance(r, (list, tuple)) else [r])
                 self.out.append({"o": "done", "c": c, "res": "ok", "val": val})
             except asyncio.TimeoutError:
                 self.out.append({"o": "done", "c": c, "res": "timeout", "val": 0})
